@@ -135,6 +135,20 @@ def watch_symbols(tag):
     return res
 
 
+def build_envprobe():
+    """Compile the getenv interposer (C, about 40 lines) next to the worker; None if no C compiler."""
+    src = os.path.join(HARNESS, "native", "envprobe.c")
+    out = os.path.join(HARNESS, "target", "libenvprobe.so")
+    try:
+        if os.path.exists(out) and os.path.getmtime(out) >= os.path.getmtime(src):
+            return out
+        os.makedirs(os.path.dirname(out), exist_ok=True)
+        rc, _ = sh(["cc", "-shared", "-fPIC", "-O1", "-o", out, src, "-ldl"], timeout=120)
+        return out if rc == 0 else None
+    except Exception:
+        return None
+
+
 def worker_env(tag):
     env = dict(ENV_BASE)
     if tag in ("dbg", "rel"):
@@ -187,7 +201,7 @@ STALL_S = {"dbg": 40, "rel": 40, "asan": 120, "tsan": 120, "miri": 600}
 
 
 def run_shards(tag, prop, tier, seed, rundir, nshards=None, scale=None, time_cap=None, watchdog=600,
-               extra_args=None, wrap=None, cwd=None, stall_s=None):
+               extra_args=None, wrap=None, cwd=None, stall_s=None, extra_env=None):
     """Run all shards of one (build, property, tier) in parallel; return the list of Shard objects."""
     cmd, _ = build(tag)
     nshards = nshards or NSHARDS
@@ -209,6 +223,8 @@ def run_shards(tag, prop, tier, seed, rundir, nshards=None, scale=None, time_cap
         s.out_path, s.journal_path = outp, jr
         t0 = time.time()
         env = worker_env(tag)
+        if extra_env:
+            env.update(extra_env)
         if tag == "miri":
             # every shard gets its own scheduler seed, so thread cases see different interleavings
             env["MIRIFLAGS"] = env.get("MIRIFLAGS", "") + " -Zmiri-seed=%d" % (seed * 64 + s.i)
@@ -875,6 +891,40 @@ def c19_extra(tier, seed, rundir, merged, hard, inconclusive, extra_cov, stages)
             entry["partitions_agree"] = "not compared (a worker died; totality is that property's finding)"
         broad[bp] = entry
     extra_cov["broad_workloads"] = broad
+    # (3c) environment probes: an LD_PRELOAD interposer logs every getenv() of one run of the
+    # purity workload; any variable the process asks for beyond the harness's and std's own is
+    # then set (to "1") for another run, whose fds and per-case digests must not change
+    envp = {"armed": False}
+    so = build_envprobe()
+    if so:
+        envp["armed"] = True
+        log = os.path.join(rundir, "envprobe.log")
+        run_shards("rel", prop, tier, seed, rundir, nshards=4, scale=0.5, watchdog=600,
+                   extra_env={"LD_PRELOAD": so, "VP_ENVPROBE_LOG": log})
+        names = set()
+        if os.path.exists(log):
+            names = {l.strip() for l in open(log, errors="replace") if l.strip()}
+        harmless = {n for n in names if n.startswith("VP_") or n in ("RUST_MIN_STACK", "RUST_BACKTRACE", "RUST_LIB_BACKTRACE", "LD_PRELOAD")}
+        suspects = sorted(names - harmless)
+        envp["variables_queried"] = sorted(names)
+        envp["queried_beyond_harness_and_std"] = suspects
+        if not names:
+            inconclusive.append("environment probe saw no getenv call at all (interposer not effective)")
+        for name in suspects[:8]:
+            alt2 = run_shards("rel", prop, tier, seed, rundir, nshards=4, scale=0.5, watchdog=600, extra_env={name: "1"})
+            octets = sum(x.out_bytes + x.err_bytes for x in alt2)
+            differing = 0
+            for x in alt2:
+                if x.report:
+                    for idx, dg in x.report.get("digests", []):
+                        if idx in base and base[idx] != dg:
+                            differing += 1
+            envp.setdefault("reruns", {})[name] = {"fd_octets": octets, "digests_differing": differing}
+            if octets or differing:
+                hard.append({"signature": "C19:environment-dependence:%s" % name, "build": "rel", "stream": None, "idx": None,
+                             "detail": "the codec queries the environment variable %s while it works; with %s=1 it wrote %d octets to stdout/stderr and %d call lists gave different results" % (name, name, octets, differing),
+                             "witness": {"variable": name}})
+    extra_cov["environment_probe"] = envp
     # (4) M6: writable rl2tp:: statics / thread-locals of the linked workers (snapshotted by the
     # "statics" stream of the worker at quiescent points; listed here)
     wm = {}
@@ -918,6 +968,7 @@ def setup():
         print("setup: harness/src/spec mentions rl2tp:\n" + out)
         return 2
     extract_vectors()
+    print("setup: environment probe %s" % ("built" if build_envprobe() else "not available (no C compiler)"))
     for tag in ("dbg", "rel", "miri"):
         try:
             _, dt = build(tag)
